@@ -1,10 +1,21 @@
 #!/bin/sh
-# tools/try_seed.sh <prop lowercase> <k>: demo on both trees and the property's quick check on the seeded worktree
+# tools/try_seed.sh <prop lowercase> <k>: re-create the seeded worktree at the CURRENT /repo HEAD + patch.diff, run the demo on
+# both trees and the property's quick check on the seeded worktree
 p=$1; k=$2; P=$(echo $p | tr a-z A-Z)
-PYTHONPATH=/repo /venv/bin/python /tmp/seedout-$p-$k/demo.py >/dev/null 2>&1; echo "demo on repo: $?"
-PYTHONPATH=/tmp/seed-$p-$k /venv/bin/python /tmp/seedout-$p-$k/demo.py >/dev/null 2>&1; echo "demo on wt: $?"
-git -C /tmp/seed-$p-$k diff --stat | tail -1
-cd /verif && XMLSCHEMA_REPO=/tmp/seed-$p-$k ./check $P --tier quick 2>&1 | grep -v "^KNOWN" | tail -2
-ls -t /verif/replays/$P-* 2>/dev/null | head -1 | xargs -r python3 -c "
+wt=/tmp/seed-$p-$k; out=/tmp/seedout-$p-$k
+if [ -f $out/patch.diff ]; then
+  git -C /repo worktree remove --force $wt 2>/dev/null; git -C /repo worktree prune
+  git -C /repo worktree add -q --detach $wt HEAD
+  git -C $wt apply $out/patch.diff || git -C $wt apply --3way $out/patch.diff || echo "PATCH DOES NOT APPLY AT HEAD"
+fi
+PYTHONPATH=/repo /venv/bin/python $out/demo.py >/dev/null 2>&1; echo "demo on repo: $?"
+PYTHONPATH=$wt /venv/bin/python $out/demo.py >/dev/null 2>&1; echo "demo on wt: $?"
+git -C $wt diff --stat | tail -1
+before=$(ls -t /verif/replays/$P-* 2>/dev/null | head -1)
+cd /verif && XMLSCHEMA_REPO=$wt ./check $P --tier quick > /tmp/try-$p-$k.out 2>&1; echo "check exit: $?"
+grep -v "^KNOWN" /tmp/try-$p-$k.out | tail -3 | cut -c1-400
+after=$(ls -t /verif/replays/$P-* 2>/dev/null | head -1)
+if [ "$after" != "$before" ] && [ -n "$after" ]; then python3 -c "
 import json,sys
-o=json.load(open(sys.argv[1])); print('REPLAY:', o.get('kind'), '|', o.get('what'), '|', json.dumps(o.get('input'))[:400], '|', json.dumps(o.get('detail'))[:300], o.get('broken'))"
+o=json.load(open(sys.argv[1])); print('REPLAY:', o.get('kind'), '|', o.get('what'), '|', json.dumps(o.get('input'))[:400], '|', json.dumps(o.get('detail'))[:300], o.get('broken'))" $after; else echo "NO NEW REPLAY"; fi
+git -C /verif checkout -q evidence 2>/dev/null
